@@ -231,6 +231,8 @@ class Model:
             if not spec.fail_undeclared:
                 groups.append(("m", [spec.fail]))
             groups.append(("failcheck", spec.fail))
+        if spec.post:
+            groups.append(("m", list(spec.post)))   # requested after the output was written; no part of the content
         return groups
 
 
